@@ -49,6 +49,8 @@ var wanted = map[string]bool{
 	"HTTPTransfer.Export": true, "HTTPTransfer.Import": true, "HTTPTransfer.importCache": true, "HTTPTransfer.AddCache": true,
 	"shardedMap.evictLeast": true, "shardedMapOf.evictLeast": true, "syncMap.evictLeast": true,
 	"shardedMap.evictLeastCounter": true, "shardedMap.evictMostExpired": true, "Trait.janitor": true,
+	"shardedMap.Load": true, "shardedMap.Store": true, "shardedMapOf.Load": true, "shardedMapOf.Store": true,
+	"syncMap.Load": true, "syncMap.Store": true, "NewShardedMap": true, "NewSyncMap": true, "NewShardedMapOf": true,
 	"Trait.init": true, "NewFailover": true, "NewFailoverOf": true,
 	"GobRegister": true, "GobTypesHash": true, "GobTypesHashReset": true,
 	"ShardedMap.Restore": true, "ShardedMapOf.Restore": true, "SyncMap.Restore": true,
